@@ -6,11 +6,14 @@ B=$1
 cd /verif
 echo "== /repo: commits on $B not on main"
 git -C /repo log --oneline main..$B || true
-for c in $(git -C /repo rev-list --reverse main..$B); do
-  if git -C /repo cherry-pick -x $c >/dev/null 2>&1; then echo "picked $(git -C /repo log -1 --format=%s $c)"; else echo "CONFLICT on $c"; git -C /repo cherry-pick --abort; exit 1; fi
+for c in $(git -C /repo rev-list --reverse --no-merges main..$B); do
+  subj=$(git -C /repo log -1 --format=%s $c)
+  if git -C /repo log --format=%s main | grep -qxF "$subj"; then echo "already on main: $subj"; continue; fi
+  case "$subj" in Merge*) continue;; esac
+  if git -C /repo cherry-pick -x $c >/dev/null 2>&1; then echo "picked $subj"; else echo "CONFLICT on $c ($subj)"; git -C /repo cherry-pick --abort; exit 1; fi
 done
 echo "== /verif: merging $B"
-git merge --no-edit $B >/tmp/merge.$$ 2>&1 || { git checkout --ours known_findings.json MANIFEST.json harness/go.mod 2>/dev/null; ./mkmanifest.py; git add -A; git commit --no-edit -q || { cat /tmp/merge.$$; exit 1; }; }
+git merge --no-edit $B >/tmp/merge.$$ 2>&1 || { git checkout --ours known_findings.json MANIFEST.json harness/go.mod evidence/ 2>/dev/null; ./mkmanifest.py; git add -A; git commit --no-edit -q || { cat /tmp/merge.$$; exit 1; }; }
 tail -3 /tmp/merge.$$; rm -f /tmp/merge.$$
 # MANIFEST.hooks = every commit of /repo main after the pinned snapshot
 git -C /repo log --format='%H %s' 74be39e..main | grep ' verif hook' | awk '{print $1}' > MANIFEST.hooks
